@@ -1,6 +1,9 @@
 package spec
 
 import (
+	"fmt"
+	"go/ast"
+	"os"
 	"sort"
 
 	"lndlint/internal/an"
@@ -33,30 +36,27 @@ var loopTable = map[string][]string{
 	"C20": {"netann.ValidateNodeAnnFields"},
 }
 
-// loopExempt: function -> regexp over the canonical range expression -> why
-// that loop is meant to stop early.
-var loopExempt = map[string]map[string]string{
-	"htlcswitch.channelLink.processRemoteAdds": {
-		`^\$v:\[\]\*lnwire\.UpdateAddHTLC$`: "the bare returns follow l.failf: the link is being torn down (the function has no error result)",
-	},
-	"invoices.updateMpp": {
-		`HTLCSet\(`: "validation of the accepted set: a mismatching member refuses the new HTLC with a failure resolution",
-	},
-	"invoices.updateLegacy": {
-		`HTLCSet\(`: "an accepted MPP member refuses the legacy HTLC with a failure resolution",
-	},
-	"invoices.reconstructAMPPreimages": {
-		`ReconstructChildren`: "a child whose hash does not match refuses the HTLC with a failure resolution",
-	},
-	"sweep.TxPublisher.createSweepTx": {
-		`^\$lit\.p0$`: "search for the change output inside fn.MapOption",
-	},
-	"lnwallet.NewLocalForceCloseSummary": {
-		`TxOut$`: "search for our to_local output on the commitment",
-	},
-	"lnwallet.NewUnilateralCloseSummary": {
-		`TxOut$`: "search for our to_remote output on the commitment",
-	},
+// loopExemption: a loop of fn whose description matches Loop may be left by
+// an exit statement whose text matches Exit (and only by that), for the stated
+// reason: searches and validations that are meant to stop at the first hit.
+type loopExemption struct {
+	Fn, Loop, Exit, Why string
+}
+
+var loopExempt = []loopExemption{
+	{"htlcswitch.channelLink.processRemoteAdds", `^\$v:\[\]\*lnwire\.UpdateAddHTLC$`, `^return$`, "the bare returns follow l.failf: the link is being torn down (the function has no error result)"},
+	{"invoices.updateMpp", `^\$p1\.HTLCSet\(\$p0\.setID\(\), invoices\.HtlcStateAccepted\)$`, `ResultHtlcSetTotalMismatch`, "validation of the accepted set: a mismatching member refuses the new HTLC with a failure resolution"},
+	{"invoices.updateLegacy", `^\$p1\.HTLCSet\(nil, invoices\.HtlcStateAccepted\)$`, `ResultMppInProgress`, "an accepted MPP member refuses the legacy HTLC with a failure resolution"},
+	{"invoices.reconstructAMPPreimages", `ReconstructChildren\(.*\)\[1:\]$`, `ResultAmpReconstruction`, "a child whose hash does not match refuses the HTLC with a failure resolution"},
+	{"sweep.TxPublisher.createSweepTx", `^\$lit\.p0$`, `^return fn\.Some\(sweepOut\)$`, "search for the change output inside fn.MapOption"},
+	{"lnwallet.NewLocalForceCloseSummary", `TxOut$`, `^break$`, "search for our to_local output on the commitment"},
+	{"lnwallet.NewUnilateralCloseSummary", `TxOut$`, `^break$`, "search for our to_remote output on the commitment"},
+}
+
+// slicedOperandOK: range loops of tabled functions that legitimately run over
+// a part of a slice (fn -> regexp of the operand).
+var slicedOperandOK = map[string]string{
+	"invoices.reconstructAMPPreimages": `ReconstructChildren\(.*\)\[1:\]$`,
 }
 
 func loopCoverage(r *an.Run, id string) {
@@ -66,8 +66,8 @@ func loopCoverage(r *an.Run, id string) {
 	}
 	p := r.Prog
 	r.Obl("per-element-loops-visit-every-element", "PATH",
-		"in the tabled functions that apply this property's per-element step to a collection, every range loop is left only when the range is exhausted or by a failure return (no break, goto or successful return inside the body); loops that are searches or validations are tabled with the reason",
-		"the property quantifies over every HTLC / update / request / resolver; a loop that stops at the first skipped element leaves the rest without the step while every sampled test with one element still passes", len(fns),
+		"in the tabled functions that apply this property's per-element step to a collection, every loop with an iteration space (range loops, three-clause and list-iterator for loops, also inside their closures) is left only when that space is exhausted or by a failure return: no break, goto, labelled continue of an outer loop or successful return inside the body; a range loop runs over the whole operand, not a slice of it; no tabled function has fewer loops than were confirmed by reading; loops that are searches or validations are tabled with the one exit they may take and the reason",
+		"the property quantifies over every HTLC / update / request / resolver; a loop that stops at the first skipped element, runs over a part of the collection or is replaced by its first element leaves the rest without the step while every sampled test with one element still passes", len(fns),
 		func(o *an.Obl) {
 			sort.Strings(fns)
 			for _, fn := range fns {
@@ -76,11 +76,79 @@ func loopCoverage(r *an.Run, id string) {
 					o.FailAt(fn+"#missing", "", "tabled function %s not found: the anchor moved", fn)
 					continue
 				}
-				n := allLoopsVisitAll(o, f, loopExempt[fn])
-				for _, lf := range f.Lits {
-					n += allLoopsVisitAll(o, lf, loopExempt[fn])
+				n := 0
+				for _, lf := range append([]*an.Func{f}, f.Lits...) {
+					n += checkLoops(o, fn, lf)
 				}
-				o.Site("%s: %d range loops checked", fn, n)
+				o.Site("%s: %d loops checked", fn, n)
+				if os.Getenv("LNDLINT_LOOPCOUNTS") != "" {
+					fmt.Printf("LOOPCOUNT %s %d\n", fn, n)
+				}
+				if want, ok := loopCounts[fn]; !ok {
+					o.FailAt(fn+"#no-loop-count", "", "no confirmed loop count for %s (regenerate loop_counts.go)", fn)
+				} else if n < want {
+					o.FailAt(fn+"#fewer-loops", f.Where(f.Body.Pos()), "%s has %d loops, %d were confirmed by reading: a per-element loop was replaced", fn, n, want)
+				}
 			}
 		})
+}
+
+// checkLoops examines the loops written directly in lf (closures are separate
+// functions) and returns how many it saw.
+func checkLoops(o *an.Obl, root string, lf *an.Func) int {
+	n := 0
+	var visit func(node ast.Node)
+	visit = func(node ast.Node) {
+		ast.Inspect(node, func(m ast.Node) bool {
+			if m == nil {
+				return false
+			}
+			if fl, ok := m.(*ast.FuncLit); ok && (lf.Lit == nil || fl != lf.Lit) {
+				return false
+			}
+			var body *ast.BlockStmt
+			var loop ast.Stmt
+			switch x := m.(type) {
+			case *ast.RangeStmt:
+				body, loop = x.Body, x
+				if _, sliced := ast.Unparen(x.X).(*ast.SliceExpr); sliced {
+					c := lf.Canon(x.X)
+					if re, ok := slicedOperandOK[root]; !ok || !reMatch(re, c) {
+						o.FailAt(root+"#partial-range:"+c, lf.Where(x.Pos()), "the loop ranges over %s, a part of the collection", c)
+					}
+				}
+			case *ast.ForStmt:
+				if x.Cond == nil {
+					return true // event loops have no iteration space
+				}
+				body, loop = x.Body, x
+			default:
+				return true
+			}
+			n++
+			desc := loopDesc(lf, loop)
+			for _, ex := range earlyExits(lf, loop, body) {
+				txt := an.Text(ex)
+				if b, ok := ex.(*ast.BranchStmt); ok {
+					txt = b.Tok.String()
+					if b.Label != nil {
+						txt += " " + b.Label.Name
+					}
+				}
+				allowed := false
+				for _, e := range loopExempt {
+					if e.Fn == root && reMatch(e.Loop, desc) && reMatch(e.Exit, txt) {
+						o.Site("%s: loop over %s may be left by %q (%s)", root, desc, txt, e.Why)
+						allowed = true
+					}
+				}
+				if !allowed {
+					o.FailAt(root+"#loop-left-early:"+desc, lf.Where(ex.Pos()), "the loop over %s can be left by %q before every element was processed", desc, txt)
+				}
+			}
+			return true
+		})
+	}
+	visit(lf.Body)
+	return n
 }
